@@ -49,7 +49,7 @@ def make_world(kind):
     return t, w, d, r
 
 
-def operations(d, kind):
+def operations(d, kind, t=None):
     if kind == "cip":
         return {"generic": lambda: d.generic_message(service=0x0E, class_code=0x99, instance=1, attribute=1)}
     if kind == "slc":
@@ -67,12 +67,24 @@ def operations(d, kind):
         "bitwrite": lambda: d.write("plain.3", True),
         "bitmerge": lambda: d.write(("plain.3", True), ("plain.4", False), ("plain2.0", True), ("plain3", 5)),
         "upload": lambda: d.get_tag_list(),
+        # the controller answers the 1st / 2nd fragment request with "partial transfer" and no value bytes
+        "readfrag_stutter1": lambda: stutter(t, d, (1,)),
+        "readfrag_stutter2": lambda: stutter(t, d, (2, 3)),
         "redundant_open": lambda: d.open(),  # open() on an already open driver re-initialises it over the same connection
     }
 
 
+def stutter(t, d, at):
+    ctl = t.device
+    ctl.rfrag_count, ctl.empty_frag_at = 0, at
+    try:
+        return d.read("big_int{2100}")
+    finally:
+        ctl.empty_frag_at = ()
+
+
 KIND_OF = {"generic": "cip", "slc_read": "slc", "slc_write": "slc"}
-ALL_OPS = ["generic", "read1", "read2", "readmany", "readfrag", "write1", "write2", "writefrag", "bitwrite", "bitmerge", "upload", "redundant_open", "slc_read", "slc_write"]
+ALL_OPS = ["generic", "read1", "read2", "readmany", "readfrag", "readfrag_stutter1", "readfrag_stutter2", "write1", "write2", "writefrag", "bitwrite", "bitmerge", "upload", "redundant_open", "slc_read", "slc_write"]
 
 
 def conn_of(t):
@@ -104,7 +116,7 @@ def sweep(rep, opname, phases, full):
         rep.violation("sequence/open-failed", f"{opname}: open() -> {r!r:.100}", {"op": opname, "phase": None})
         w.__exit__()
         return {}
-    ops = operations(d, kind)
+    ops = operations(d, kind, t)
     op = ops[opname]
     filler = (lambda: d.generic_message(service=0x0E, class_code=0x99, instance=1)) if kind != "slc" else (lambda: d.read("N7:0"))
     # one message first so that the connection exists and the phase is observable
@@ -181,7 +193,12 @@ def window():
 
 
 def shards(tier, seed):
-    return [("sweep", op) for op in ALL_OPS] + [("mixed", k) for k in ("logix", "slc")]
+    big = BIG_CALLS if tier == "thorough" else BIG_CALLS[:2]
+    return [("sweep", op) for op in ALL_OPS] + [("mixed", k) for k in ("logix", "slc")] + [("bigcall", op, k) for k in big for op in ("read", "write")]
+
+
+# calls whose number of requests sits at the counter's modulus: whatever a request "costs" in counts, k, k+1 or k-1 of them come around to the same count
+BIG_CALLS = (WRAP - 1, WRAP - 2, WRAP, 2 * WRAP - 1)
 
 
 def describe(tier, seed):
@@ -197,10 +214,35 @@ def run_shard(shard, tier, seed):
         recs = sweep(rep, op, phases, full)
         rep.extra["records"] = [(op, recs)]
         rep.sample({"operation": op, "phases_visited": len(recs), "counts_per_run": sorted({v[2] for v in recs.values()})[:5], "at_wrap": recs.get(WRAP)})
+    elif shard[0] == "bigcall":
+        _, op, k = shard
+        t, w, d, r = make_world("logix")
+        call(d.read, "plain")
+        conn = conn_of(t)
+        for start in ((30, WRAP - 5) if tier != "thorough" else (30, WRAP - 5, 1, WRAP)):
+            seq = d._sequence
+            for _ in range((start - 1 - conn.seqs[-1]) % WRAP):
+                next(seq)
+            call(d.read, "plain")
+            n0 = len(conn.seqs)
+            n_ev = len(t.events)
+            w.io_budget = w.io_total + 40 * k
+            out = call(d.read, *(["plain"] * k)) if op == "read" else call(d.write, *([("plain", 7)] * k))
+            seqs = conn.seqs[n0 - 1:]
+            dup = next((i for i, (a, b) in enumerate(zip(seqs, seqs[1:])) if a == b), None)
+            flagged = [e for e in t.events[n_ev:] if e[0].startswith("C17")]
+            ok = out[0] == "ok" and isinstance(out[1], list) and len(out[1]) == k and all(out[1]) and dup is None and not flagged
+            rep.case(("bigcall", op, k, start), outcome="ok" if ok else "bad", calls=len(seqs) - 1)
+            if not ok:
+                what = f"message #{dup + 1} of the call repeats the count {seqs[dup]} of the message before it" if dup is not None else (flagged[0][1] if flagged else f"result {out!r:.80}")
+                rep.violation(f"sequence/big-call/{op}/{'duplicate' if dup is not None or flagged else 'failed'}", f"{op} of {k} requests in one call, counter at {seqs[0]} before the call: {what}", {"op": f"bigcall-{op}", "phase": start, "k": k})
+        rep.sample({"big_call": op, "requests": k, "messages": len(conn.seqs)})
+        call(d.close)
+        w.__exit__()
     else:
         kind = shard[1]
         t, w, d, r = make_world(kind)
-        ops = operations(d, kind)
+        ops = operations(d, kind, t)
         names = list(ops)
         call(ops[names[0]])
         conn = conn_of(t)
@@ -269,6 +311,8 @@ def replay(r):
     if r["op"] == "mixed":
         rep2 = run_shard(("mixed", "logix"), "quick", 0)
         rep.merge(rep2)
+    elif r["op"].startswith("bigcall-"):
+        rep.merge(run_shard(("bigcall", r["op"][8:], r["k"]), "quick", 0))
     else:
         ph = [r["phase"]] if r.get("phase") else window()
         sweep(rep, r["op"], ph, False)
